@@ -73,6 +73,8 @@ pub struct VT {
 	pub encode_all: fn(&Value) -> EncOut,
 	pub encode_to_write: fn(&Value, &mut dyn io::Write),
 	pub encode_twice: fn(&Value) -> (Vec<u8>, Vec<u8>),
+	/// the value behind boxed / shared / borrowed holders: (holder, bytes)
+	pub encode_holders: fn(&Value) -> Vec<(&'static str, Vec<u8>)>,
 	pub decode: fn(&[u8]) -> DecRes,
 	pub decode_dyn: fn(&mut dyn Input) -> Result<Value, String>,
 	pub decode_reencode: fn(&[u8]) -> Result<(Vec<u8>, usize), String>,
@@ -137,6 +139,29 @@ fn enc_to_write<T: Subject + Encode>(v: &Value, w: &mut dyn io::Write) {
 fn enc_twice<T: Subject + Encode>(v: &Value) -> (Vec<u8>, Vec<u8>) {
 	let t = T::from_value(v);
 	(t.encode(), t.encode())
+}
+
+fn enc_holders<T: Subject + Encode>(v: &Value) -> Vec<(&'static str, Vec<u8>)> {
+	use std::{rc::Rc, sync::Arc};
+	let mut t = T::from_value(v);
+	let mut out = vec![("T", t.encode())];
+	out.push(("&T", (&t).encode()));
+	out.push(("&&T", (&&t).encode()));
+	out.push(("&mut T", (&mut t).encode()));
+	let b = Box::new(T::from_value(v));
+	out.push(("Box<T>", b.encode()));
+	out.push(("&Box<T>", (&b).encode()));
+	out.push(("Box<Box<T>>", Box::new(Box::new(T::from_value(v))).encode()));
+	let r = Rc::new(T::from_value(v));
+	let r2 = r.clone();
+	out.push(("Rc<T>", r.encode()));
+	out.push(("Rc<T> (cloned, shared)", r2.encode()));
+	let a = Arc::new(T::from_value(v));
+	let a2 = Arc::clone(&a);
+	out.push(("Arc<T>", a.encode()));
+	out.push(("Arc<T> (cloned, shared)", a2.encode()));
+	out.push(("Rc<Box<T>>", Rc::new(Box::new(T::from_value(v))).encode()));
+	out
 }
 
 fn dec<T: Subject + Decode>(data: &[u8]) -> DecRes {
@@ -265,6 +290,7 @@ impl VT {
 			encode_all: enc_all::<T>,
 			encode_to_write: enc_to_write::<T>,
 			encode_twice: enc_twice::<T>,
+			encode_holders: enc_holders::<T>,
 			decode: dec::<T>,
 			decode_dyn: dec_dyn::<T>,
 			decode_reencode: dec_reenc::<T>,
